@@ -47,6 +47,12 @@ func TestVerif(t *testing.T) {
 }
 
 var registry = map[string]func(t *testing.T, c *Collector){
+	"C05": func(t *testing.T, c *Collector) {
+		c.res.Rule = "all interleavings (<= bound preemptions) at lock-acquisition and file-system-call granularity of 2-3 caller threads (1-2 calls each on keys sharing a bucket and stored prefixes) with or without a concurrent Flush, from 6 initial states; oracle: every call returns without error, porcupine finds a linearization of the call/return history extended by quiescent final reads; non-trivial = two threads alternated on the same lock or file"
+		scs := c05Scenarios(c.job.Tier)
+		c.res.Bound = fmt.Sprintf("%d scenarios, preemption bound %d", len(scs), scs[0].Bound)
+		runConcScenarios(t, c, scs)
+	},
 	"C03": func(t *testing.T, c *Collector) {
 		c.res.Rule = "every crash point (between consecutive file-system mutations) and every torn byte-prefix of every write of the last op of every history of <= depth ops (Put/Remove/Flush/IndexGC/PrimaryGC/Close+Open) after each preamble x configuration, incl. the initial Open; recovery by the real OpenStore; oracle: per-key allowed-value sets + continuation battery through GC and reopen; evaluations = distinct (image, allowed-set) pairs recovered; non-trivial = torn-write images"
 		runCrashScenarios(c, c03Scenarios("C03", c.job.Tier))
